@@ -340,6 +340,89 @@ def run(ctx: Ctx) -> None:
         where = "/".join(str(p) for p in path if p != "properties")
         ctx.check(not errs, "V7", f"{fn[:-5]}.{where} default", f"mappyfile/schemas/{fn}", f"default {default!r} valid", f"default {default!r} is invalid for its own keyword: {errs[0].message if errs else ''}")
 
+    # ---- V9 every alternative validates for its slot -------------------------------------------
+    ctx.rule("V9", "a value that satisfies one listed alternative of a keyword together with the sibling constraints (every enum word, a string of each pattern class, numbers at the bounds, lists of each item alternative) is valid (Draft-4) for the keyword's whole schema node - no alternative is made unusable by an overlapping oneOf sibling", 350)
+    import re as _re
+
+    STR_CANDIDATES = ["abc", "some text", "[attr]", "([a] = 1)", "/abc/", "#ff0000", "#ff000080", "'#ff0000'", '"#ff0000"', "1", "a.b", "%g", "abc.map", "epsg:4326", "'abc'i", "{a,b}", "0", "file.png", "http://example.com/"]
+    NUM_CANDIDATES = [0, 1, -1, 2, 5, 10, 100, 255, 1000, 0.5, 1.5, -0.5, 90, 360]
+
+    def valid(node, v):
+        try:
+            return not list(jsonschema.Draft4Validator(node).iter_errors(v))
+        except Exception as ex:
+            raise AnalysisError(f"cannot evaluate schema node: {ex}")
+
+    def reps(alt, depth=0):
+        """Concrete values that satisfy ``alt`` on its own."""
+        if alt.cls == "ENUM":
+            vals = [w.lower() for w in alt.words] + list(alt.nonstring)
+        elif alt.cls == "STR":
+            vals = [c for c in STR_CANDIDATES if valid(alt.node, c)][:3]
+        elif alt.cls in ("NUM", "INT"):
+            cand = list(NUM_CANDIDATES)
+            for b in ("minimum", "maximum"):
+                if isinstance(alt.node.get(b), (int, float)):
+                    cand.insert(0, alt.node[b])
+            if alt.cls == "INT":
+                cand = [c for c in cand if isinstance(c, int)]
+            vals = [c for c in cand if valid(alt.node, c)][:4]
+        elif alt.cls == "BOOL":
+            vals = [True, False]
+        elif alt.cls == "LIST" and depth < 2:
+            vals = []
+            if alt.tuple_items:
+                per = [reps(pos_alts[0], depth + 1)[:1] for pos_alts in alt.tuple_items if pos_alts]
+                if all(per):
+                    vals.append([x[0] for x in per])
+            else:
+                sizes = sorted({max(alt.min_items or 1, 1), alt.max_items or max(alt.min_items or 1, 2)})
+                for ia in alt.items or []:
+                    if ia.cls == "OBJECT":
+                        continue
+                    for r_ in reps(ia, depth + 1)[:2]:
+                        for n_ in sizes:
+                            vals.append([r_] * n_)
+            vals = [v for v in vals if valid(alt.node, v)]
+        else:
+            vals = []
+        return vals
+
+    def _relax(nd, depth=0):
+        """The node with every oneOf read as anyOf: what the alternatives admit together with their sibling constraints."""
+        if depth > 12 or not isinstance(nd, dict):
+            return nd
+        out = {}
+        for kk, vv in nd.items():
+            if kk in ("oneOf", "anyOf", "allOf"):
+                out["anyOf" if kk == "oneOf" else kk] = [_relax(x, depth + 1) for x in vv]
+            elif kk == "items":
+                out[kk] = _relax(vv, depth + 1) if isinstance(vv, dict) else [_relax(x, depth + 1) for x in vv]
+            else:
+                out[kk] = vv
+        return out
+
+    n9 = 0
+    for t in S.types():
+        for k, node in sorted(S.slots(t).items()):
+            loc = f"mappyfile/schemas/{S.type_files[t]}#{k}"
+            for i_alt, alt in enumerate(S.alternatives(node)):
+                if alt.cls in ("OBJECT", "ANY"):
+                    continue
+                relaxed = _relax(node)
+                vals = [v for v in reps(alt) if valid(relaxed, v)]
+                if not vals:
+                    ctx.notes.append(f"V9: no representative found for {t}.{k} alternative {alt.tag()}") if hasattr(ctx, "notes") else None
+                    continue
+                bad = []
+                for v in vals:
+                    errs = list(jsonschema.Draft4Validator(node).iter_errors(v))
+                    if errs:
+                        bad.append((v, errs[0].message[:120]))
+                n9 += 1
+                ctx.check(not bad, "V9", f"{t}.{k} | alternative {i_alt} {alt.tag()}", loc, f"{len(vals)} representative value(s) valid", f"{k.upper()} {bad[0][0] if bad else ''!r} satisfies the listed alternative {alt.tag()} (via {'/'.join(map(str, alt.via)) or 'the node itself'}) but is rejected for the keyword: {bad[0][1] if bad else ''}")
+    ctx.units["alternatives_validated"] = n9
+
     # ---- V8 printer dispatch / COMPLEX_TYPES ----------------------------------------------------
     ctx.rule("V8", "the keyword literals PrettyPrinter._format dispatches on, compute_max_key_length's ignore list, COMPLEX_TYPES and the grammar's keyword-introduced block rules agree", 3)
     fmt = repo.func("pprint.PrettyPrinter._format")
